@@ -152,6 +152,7 @@ class Run:
         for o, f in known:
             lines.append(f'KNOWN-FINDING: property={self.pid} {o.name} sig={o.sig} {f["text"]}')
         os.makedirs(os.path.join(ROOT, 'replay', self.pid), exist_ok=True)
+        self._replays_done = 0
         for o, _ in new:
             path, replayed = self.write_replay(o)
             suffix = '' if replayed else ' no-failing-input-found'
@@ -212,11 +213,26 @@ class Run:
         path = os.path.join(d, safe + '.json')
         replayed, text = False, ''
         hook = self.replay_hooks.get(o.name)
-        if hook is not None:
+        if hook is not None and self._replays_done >= 8:
+            text = 'native replay skipped: 8 counterexamples of this run were already replayed (cap)'
+            replayed = getattr(self, '_any_replayed', False)
+        elif hook is not None:
+            import signal
+
+            def _alarm(sig, frm):
+                raise TimeoutError('native replay exceeded its 240 s budget')
+            old = signal.signal(signal.SIGALRM, _alarm)
+            signal.alarm(240)
             try:
+                self._replays_done += 1
                 replayed, text = hook(o)
+                if replayed:
+                    self._any_replayed = True
             except Exception:
-                text = 'replay harness crashed:\n' + traceback.format_exc()
+                text = 'replay harness did not finish:\n' + traceback.format_exc()
+            finally:
+                signal.alarm(0)
+                signal.signal(signal.SIGALRM, old)
         rec = dict(property=self.pid, obligation=o.name, function=o.func, backend=o.backend,
                    signature=o.sig, verifier_output=o.detail, witness=o.witness,
                    replayed_natively=replayed, native_replay=text,
